@@ -29,6 +29,10 @@ func (f *fakeIPInfo) GetIPInfo(ip net.IP) (ipinfo.IPInfo, error) {
 	if ip.To4() == nil {
 		return ipinfo.IPInfo{}, errors.New("no v6 in this harness")
 	}
+	if idOfIP(ip)%7 == 3 {
+		// a database error for some clients: they are located "XD" and their tunnel time counts all the same
+		return ipinfo.IPInfo{}, errors.New("lookup failed")
+	}
 	return ipinfo.IPInfo{CountryCode: ipinfo.CountryCode(fmt.Sprintf("L%d", idOfIP(ip)%f.nlocs))}, nil
 }
 
@@ -61,7 +65,7 @@ func gatherTunnel(reg *prometheus.Registry, nkeys, nlocs int) ([]int64, []int64,
 		return nil, nil, err
 	}
 	perKey := make([]int64, nkeys)
-	perLoc := make([]int64, nlocs)
+	perLoc := make([]int64, nlocs+1) // the last bucket is location "XD" (database error)
 	for _, mf := range mfs {
 		for _, m := range mf.GetMetric() {
 			lab := map[string]string{}
@@ -85,6 +89,9 @@ func gatherTunnel(reg *prometheus.Registry, nkeys, nlocs int) ([]int64, []int64,
 					if fmt.Sprintf("L%d", l) == lab["location"] {
 						perLoc[l] += iv
 					}
+				}
+				if lab["location"] == "XD" {
+					perLoc[nlocs] += iv
 				}
 			}
 		}
